@@ -5,6 +5,8 @@ import json, os, subprocess, sys, glob
 root = '/verif'
 pref = sys.argv[1] if len(sys.argv) > 1 else ''
 rows = []
+if subprocess.run(['git', '-C', '/repo', 'status', '--porcelain'], capture_output=True, text=True).stdout.strip():
+    sys.exit('refusing to run: /repo has uncommitted changes (commit them first; seeds are applied to and removed from the working tree)')
 for d in sorted(glob.glob(root + '/seeded/*')):
     sid = os.path.basename(d)
     if not sid.startswith(pref) or not os.path.exists(d + '/patch.diff'):
@@ -19,7 +21,7 @@ for d in sorted(glob.glob(root + '/seeded/*')):
         failed = [l.split(' [')[0].replace('FAILED ', '') for l in p.stdout.splitlines() if l.startswith('FAILED')]
         gen = [l for l in p.stdout.splitlines() if l.startswith('cannot generate')]
     finally:
-        subprocess.call(['git', '-C', '/repo', 'checkout', '--', '.'])
+        subprocess.call(['git', '-C', '/repo', 'apply', '-R', d + '/patch.diff'])
     det = dict(seed=sid, property=prop, exit_code=p.returncode, detected=p.returncode == 1 and len(viol) > 0,
                failed_obligations=failed, generation_errors=[g[:300] for g in gen], violation_lines=viol)
     json.dump(det, open(d + '/detected.json', 'w'), indent=1)
